@@ -454,6 +454,30 @@ fn one<X: Sx, Y: Sx>(ctx: &Ctx, idx: u64, l: usize, m: usize, all_flips: bool) {
             pv("relabel-signer-as-committed", format!("{k}"), &proof, &pk, ho, po, Some(l),
                &xdm, &cd.iter().map(|p| p.1.clone()).collect::<Vec<_>>(), &xd, &cd.iter().map(|p| p.0).collect::<Vec<_>>());
         }
+        // surplus disclosed messages (more messages than indexes), in either list, and messages with the index list absent
+        {
+            let extra = b"never signed".to_vec();
+            let mut x = dm.clone();
+            x.push(extra.clone());
+            pv("signer-msg-surplus", "end".into(), &proof, &pk, ho, po, Some(l), &x, &dcm, d, c);
+            let mut x = dcm.clone();
+            x.push(extra.clone());
+            pv("committed-msg-surplus", "end".into(), &proof, &pk, ho, po, Some(l), &dm, &x, d, c);
+            let mut x = dcm.clone();
+            x.insert(0, extra.clone());
+            pv("committed-msg-surplus", "front".into(), &proof, &pk, ho, po, Some(l), &dm, &x, d, c);
+            let case = format!("{}/bpv-indexes-absent", pbase);
+            if !dcm.is_empty() || !dm.is_empty() {
+                let o = ctx.call("blind_proof_verify", &case, Some(64 + 4 * (l + m + 2) as u64), || proof.blind_proof_verify(&pk, ho, po, Some(l), Some(&dm), Some(&[extra.clone()]), Some(d), None));
+                if c.is_empty() {
+                    not_ok(ctx, "blind_proof_verify/committed-msg-without-index", &case, &o.outcome, json!({"honest":{"L":l,"M":m,"D":d,"C":c}}));
+                }
+                let o = ctx.call("blind_proof_verify", &case, Some(64 + 4 * (l + m + 2) as u64), || proof.blind_proof_verify(&pk, ho, po, Some(l), Some(&[extra.clone()]), Some(&dcm), None, Some(c)));
+                if d.is_empty() {
+                    not_ok(ctx, "blind_proof_verify/signer-msg-without-index", &case, &o.outcome, json!({"honest":{"L":l,"M":m,"D":d,"C":c}}));
+                }
+            }
+        }
         // the blind-factor slot L claimed as a disclosed signer message
         {
             let mut sd: Vec<(usize, Vec<u8>)> = d.iter().copied().zip(dm.iter().cloned()).collect();
